@@ -11,7 +11,9 @@ _MIN = {'cases_replayed': 300, 'acq_read': 5000, 'acq_write': 5000, 'acq_read_re
         # release of both modes in either order + rendezvous after the first release (seeded change C18-5)
         'both_held_read_released_first': 300, 'downgrade_keeping_read_depth_over_1': 100, 'both_held_read_released_first_write_depth_over_1': 100,
         'downgrades_with_parked_reader': 100, 'rendezvous_waits_after_downgrade': 100, 'readers_admitted_after_partial_release': 100,
-        'rendezvous_waits_prefer_writers': 20, 'rendezvous_waits_prefer_readers': 20, 'rendezvous_with_several_parked_readers': 10}
+        'rendezvous_waits_prefer_writers': 20, 'rendezvous_waits_prefer_readers': 20, 'rendezvous_with_several_parked_readers': 10,
+        # F58 (fixed e4aa529): readers let in after every parked (timed) writer has left the table while other readers still execute
+        'readers_admitted_after_parked_writer_timed_out': 30, 'plain_reader_waits_for_parked_readers': 20}
 _MINR = {'readers_admitted_after_partial_release': 10, 'downgrade_by_unlocking_write_first': 10, 'both_held_read_released_first': 8, 'scenario_try_upgrade_behind_parked_writer': 3}
 
 SPEC = dict(
@@ -21,7 +23,7 @@ SPEC = dict(
           "balanced operations (LockReadOnly/LockReadWrite untimed, try, timed 100 us-20 ms and already-expired; recursion to depth 3 in both "
           "modes; read->write upgrade; downgrade; refused unlocks; 'hold until peer P's pending try/timed call has returned' with an untimed "
           "wait; after releasing its last write lock while keeping a read lock a thread waits, untimed, until every reader that was parked "
-          "has left the waiting table -- demanded only while no writer is parked when writer preference is on), one delay placement per case taken round-robin over {none, jitter, 3 delay sites x (any thread, thread 0..3)}; judged by "
+          "has left the waiting table (also done by plain readers at random moments) -- with writer preference the wait is abandoned only when a writer WITHOUT a deadline is parked; parked timed writers leave by their deadline and the readers must then be let in), one delay placement per case taken round-robin over {none, jitter, 3 delay sites x (any thread, thread 0..3)}; judged by "
           "(1) a harness-side holder record, (2) an offline replay of the parked/admitted/released/timed-out hook events (emitted under "
           "_stateMutex) merged with per-thread call markers, (3) completion of every script (otherwise the driver's proved-deadlock detector "
           "decides), (4) TSan in the tsan leg; a case is non-trivial when at least one thread was parked and both a read and a write "
@@ -30,7 +32,7 @@ SPEC = dict(
                  'a thread blocked in futex/pthread_cond_wait/pthread_join without a timeout, with no CPU use over 3 s by any thread, is deadlocked (driver, DESIGN.md 1.3)',
                  'overshoot of a deadline is only recorded (max_overshoot_us), never judged: a try/timed call that blocks on a holder becomes a proved deadlock through the hold-until-returned step',
                  'timed read->write upgrades are generated in the main legs but peers wait for their return only in the leg timed-upgrade-restore (open finding F24b)',
-                 'after a write->read downgrade the parked readers must be admitted while the downgraded thread still reads, unless (preferWriters) a writer is or becomes parked; the waiting tables are followed online by a hook wrapper that runs under _stateMutex',
+                 'after a write->read downgrade the parked readers must be admitted while the downgraded thread still reads, unless (preferWriters) a writer whose call has no deadline is or becomes parked; the waiting tables are followed online by a hook wrapper that runs under _stateMutex',
                  'writer barging past parked writers by a thread that never parked, and readers that called before the writer parked, are unspecified and only counted',
                  'g++ 12 TSan / ASan / UBSan report what they claim to report'],
     legs=[
